@@ -92,6 +92,22 @@ fn check_file(w: &[u8], names: &[Vec<u8>], marks: &[usize], c: &mut Choice, ever
                     }
                 }
             }
+            // the same prefix behind a stream that cannot seek relative to its end (a legal Read+Seek): whatever
+            // the parser does about the unknown length, a prefix must not answer differently from the complete file
+            if l % 2 == 0 {
+                let ek = ((l / 2) % 8) as u8;
+                let rd = verif_model::io::Reader::new(p.to_vec()).without_seek_end(ek);
+                if let Ok(mut sp) = guard(|| elf::ElfStream::<AnyEndian, _>::open_stream(rd)).map_err(|m| format!("stream parser: open_stream panicked on the {}-byte prefix behind a stream that cannot seek from its end: {}", l, m))? {
+                    st.stream_prefixes += 1;
+                    for (i, q) in plan.iter().enumerate() {
+                        if let Some(Ok(x)) = queries::eval_stream(&mut sp, q) {
+                            if rws[i] != Some(Ok(x)) {
+                                return Err(format!("stream parser (stream whose SeekFrom::End fails with {:?}): on the {}-byte prefix of a {}-byte file the query {:?} answers Ok({:#x}); on the complete file it answers {:?}", verif_model::io::ERROR_KINDS[ek as usize], l, w.len(), q, x, rws[i]));
+                            }
+                        }
+                    }
+                }
+            }
         }
     }
     // extension: arbitrary bytes appended after the end change no Ok answer
